@@ -68,11 +68,17 @@ pub struct RefSearch {
     /// repetition rule for C09: positions (by reference identity) that count as a draw when
     /// they come up below the root
     pub draw_positions: Option<HashSet<Pos>>,
+    /// the same rule with the rule-book identity of positions (ep square only when capturable)
+    /// (representatives: a position counts when placement, side to move and castling rights are
+    /// those of a representative and its capturable-ep square is the same)
+    pub draw_keys: Option<Vec<(Pos, Option<u8>)>>,
+    /// when set, the rule is applied one ply below the root only (used to classify cases)
+    pub draw_first_ply_only: bool,
 }
 
 impl RefSearch {
     pub fn new(cap: u64) -> RefSearch {
-        RefSearch { evaluator: Evaluator::new(), qmemo: HashMap::new(), qab_memo: HashMap::new(), def_budget: 3_000, leaves_definitional: 0, leaves_alphabeta: 0, cross_checked: 0, cross_check_failure: None, vmemo: HashMap::new(), in_progress: HashSet::new(), nodes: 0, cap, max_q_depth: 600, draw_positions: None }
+        RefSearch { evaluator: Evaluator::new(), qmemo: HashMap::new(), qab_memo: HashMap::new(), def_budget: 3_000, leaves_definitional: 0, leaves_alphabeta: 0, cross_checked: 0, cross_check_failure: None, vmemo: HashMap::new(), in_progress: HashSet::new(), nodes: 0, cap, max_q_depth: 600, draw_positions: None, draw_keys: None, draw_first_ply_only: false }
     }
 
     pub fn eval(&mut self, p: &Pos) -> i32 {
@@ -219,23 +225,37 @@ impl RefSearch {
         Ok(v)
     }
 
-    pub fn v(&mut self, p: &Pos, d: u8) -> Result<i32, Abort> {
-        self.v_rec(p, d, true)
+    /// Forgets the memoised main-search values (they depend on the draw rule in force).
+    pub fn clear_v(&mut self) {
+        self.vmemo.clear();
     }
 
-    fn v_rec(&mut self, p: &Pos, d: u8, root: bool) -> Result<i32, Abort> {
-        if !root {
+    pub fn v(&mut self, p: &Pos, d: u8) -> Result<i32, Abort> {
+        self.v_rec(p, d, 0)
+    }
+
+    fn v_rec(&mut self, p: &Pos, d: u8, ply: u32) -> Result<i32, Abort> {
+        if ply > 0 && (!self.draw_first_ply_only || ply == 1) {
             if let Some(dr) = &self.draw_positions {
                 if dr.contains(p) {
                     return Ok(0);
+                }
+            }
+            if let Some(dk) = &self.draw_keys {
+                for (r, ep_eff) in dk {
+                    if r.sq == p.sq && r.stm == p.stm && r.castle == p.castle && p.repetition_key().3 == *ep_eff {
+                        return Ok(0);
+                    }
                 }
             }
         }
         if d == 0 {
             return self.q(p);
         }
-        if let Some(v) = self.vmemo.get(&(p.clone(), d)) {
-            return Ok(*v);
+        if !self.draw_first_ply_only {
+            if let Some(v) = self.vmemo.get(&(p.clone(), d)) {
+                return Ok(*v);
+            }
         }
         self.nodes += 1;
         if self.nodes > self.cap {
@@ -252,14 +272,16 @@ impl RefSearch {
             let mut best = LOST;
             for m in legal {
                 let c = p.make(m);
-                let v = neg(self.v_rec(&c, d - 1, false)?);
+                let v = neg(self.v_rec(&c, d - 1, ply + 1)?);
                 if v > best {
                     best = v;
                 }
             }
             best
         };
-        if self.draw_positions.is_none() {
+        // with a draw rule below every ply the value is still a function of (position, depth) for a
+        // fixed history; callers clear the memo (clear_v) whenever they change the rule
+        if !self.draw_first_ply_only {
             self.vmemo.insert((p.clone(), d), v);
         }
         Ok(v)
@@ -268,6 +290,6 @@ impl RefSearch {
     /// Value of playing `m` at `p` with `d` plies in total.
     pub fn move_value(&mut self, p: &Pos, m: Mv, d: u8) -> Result<i32, Abort> {
         let c = p.make(m);
-        Ok(neg(self.v_rec(&c, d - 1, false)?))
+        Ok(neg(self.v_rec(&c, d - 1, 1)?))
     }
 }
